@@ -142,6 +142,13 @@ func (r *Result) Set(k string, v any) {
 	r.mu.Unlock()
 }
 
+// Get returns an extra coverage key (nil if unset).
+func (r *Result) Get(k string) any {
+	r.mu.Lock()
+	defer r.mu.Unlock()
+	return r.Extra[k]
+}
+
 // Inc increments an integer extra coverage key.
 func (r *Result) Inc(k string, n int) {
 	r.mu.Lock()
